@@ -267,13 +267,20 @@ def run_e2(sc):
         for c in comps:
             for n, o in c.outputs.items():
                 labels[id(o)] = f"{c.name}.{n}"
+        shared_scales = {}
         for l in sc["link_order"]:
             ln = sc["links"][l]
             src = comps[ln["src"][0]].outputs[comps_spec[ln["src"][0]]["outputs"][ln["src"][1]]["name"]]
             dst = comps[ln["dst"][0]].inputs[comps_spec[ln["dst"][0]]["inputs"][ln["dst"][1]]["name"]]
             cur = src
             if ln.get("scale"):
-                cur = cur >> Scale(float(ln["scale"]))
+                # links of one output may share the very same Scale instance (fan-out at a pull-based adapter)
+                grp = ln.get("scale_group", l)
+                if grp in shared_scales:
+                    cur = shared_scales[grp]
+                else:
+                    cur = cur >> Scale(float(ln["scale"]))
+                    shared_scales[grp] = cur
             for a in ln.get("chain", []):
                 cur = cur >> make_adapter(a)     # value preserving at the initial time (both initial pushes carry v0)
             cur >> dst
